@@ -210,12 +210,16 @@ def run_impl(case, rng_thr=None):
             sel.initialize = 0          # the chain's initial selections may not exist in the other data
         if pf["thr"]:
             sel.score_threshold = 1e-3 if case["kind"] in ("cur", "pcovcur") else 40.0
+        prefit_error = None
         with warnings.catch_warnings():
             warnings.simplefilter("ignore")
-            if pf["y"] is None:
-                sel.fit(np.array(pf["X"], dtype=float))
-            else:
-                sel.fit(np.array(pf["X"], dtype=float), np.array(pf["y"], dtype=float))
+            try:
+                if pf["y"] is None:
+                    sel.fit(np.array(pf["X"], dtype=float))
+                else:
+                    sel.fit(np.array(pf["X"], dtype=float), np.array(pf["y"], dtype=float))
+            except Exception as e:  # noqa
+                prefit_error = "%s: %s" % (S.err_class(e), str(e)[:120])
         sel.score_threshold = None
         if init_keep is not None:
             sel.initialize = init_keep
@@ -308,7 +312,8 @@ def run_impl(case, rng_thr=None):
             if not (nxt and nxt[0].get("cold")):
                 break
     return dict(stages=out, stream=[code(v) for v in rec.calls], int_scores=int_scores,
-                full_fraction_after=getattr(sel, "full_fraction", None))
+                full_fraction_after=getattr(sel, "full_fraction", None),
+                prefit_error=(prefit_error if pf is not None else None))
 
 
 def transform_probe(sel, case):
@@ -467,6 +472,8 @@ def oracle(case, res):
     Y = case["y"]
     prev_nsel = 0
     f2_hit = None
+    if res.get("prefit_error"):
+        return ("the fit on other data that precedes the chain (valid configuration) raised " + res["prefit_error"], None)
     for si, s in enumerate(res["stages"]):
         v = oracle_stage(case, res, si, s, prev_nsel)
         if v is not None and v[1] != KEY_F2:
@@ -593,22 +600,43 @@ def fit_error_key(case, s):
     return None
 
 
+def directed_cases():
+    """The witnesses of C01_warm_after_stop_*_refuted / C01_buf_nonvacuous-style chains, replayed on the
+    implementation in every run (sample FPS on four points; the score vectors of the theorems ARE its
+    Hausdorff distances): stop after one kept step -> warm start broadcasts the index buffer (duplicate);
+    stop after two kept steps -> ValueError; with targets -> IndexError."""
+    X = [[0, 0], [3, 0], [0, 4], [1, 1]]
+    out = []
+    for thr, y in (((10, 1), None), ((5, 1), None), ((10, 1), [[1], [2], [3], [4]])):
+        out.append(dict(kind="fps", axis=0, X=X, y=y, family="directed", extra={}, y1d=False, init=0,
+                        stages=[dict(nts=4, thr_kind="absolute", thr_real=thr), dict(nts=4)]))
+    return out
+
+
+DIRECTED_EXPECT = [("obs", [0, 0, 1, 3]), ("error", "ValueError"), ("error", "IndexError")]
+
+
 def run(ctx):
     po = C.proof_obligations(ctx.prop, extra_targets=["Model/Resolve.vo"])
-    ncases = 800 if ctx.quick else 8000
+    ncases = 1500 if ctx.quick else 8000
     cases, ress = [], []
     stats = dict(kinds={}, stops=0, warm_stages=0, rejects=0, frac=0, none=0, ties=0, multi_y=0,
                  thr_abs=0, thr_rel=0, errors=0, inexact_skipped=0,
                  y1d=0, prefit=0, full_without_threshold=0, transform_new_data=0, float_relative_thr=0,
                  warm_after_clean_stop=0, warm_after_cut_stop=dict(duplicate=0, ValueError=0, IndexError=0, other=0),
                  rejected_mid_chain=0)
-    for _ in range(ncases):
-        c = gen_case(ctx.rng, ctx.quick)
+    directed = directed_cases()
+    directed_seen = []
+    for ci in range(len(directed) + ncases):
+        c = directed[ci] if ci < len(directed) else gen_case(ctx.rng, ctx.quick)
         try:
             r = run_impl(c)
         except C.InexactOutput:
             stats["inexact_skipped"] += 1
             continue
+        if ci < len(directed):
+            last = r["stages"][-1]
+            directed_seen.append(("obs", last["obs"]["sel"]) if "obs" in last else ("error", last.get("error")))
         cases.append(c)
         ress.append(r)
         k = "%s/axis%d" % (c["kind"], c["axis"])
@@ -698,6 +726,12 @@ def run(ctx):
                                 "of a fit differs from Model/SelBuf.v (oracle accepts the output, or files it under F2)",
                            dict(case=cases[i], observed=ress[i], correspondence="bchain_ok (Model/SelBuf.v)"),
                            found_input=False)
+    if directed_seen != DIRECTED_EXPECT:
+        # the implementation no longer does what the faithful model (and the _refuted theorems) say it does
+        # after a threshold stop that cut selections off; bchain_ok above has the details
+        C.report_violation(ctx, "the directed F2 chains (witnesses of C01_warm_after_stop_*_refuted) behave differently "
+                                "on the implementation: %r, expected %r" % (directed_seen, DIRECTED_EXPECT),
+                           dict(cases=directed, seen=directed_seen, expected=DIRECTED_EXPECT), found_input=False)
     for txt in broken:
         C.report_violation(ctx, "correspondence shard did not evaluate", dict(coq_output=txt), found_input=False)
     if not po["ok"]:
@@ -718,7 +752,8 @@ def run(ctx):
                chains_in_abstract_model=sum(1 for i in idx if texts[i] != "true"),
                chains_in_buffer_model=len(idx),
                samples=[dict(case=cases[i], observed=ress[i]) for i in range(min(2, len(cases)))],
-               distribution=stats, anchor_drift=changed, oracle_runs=n_or)
+               distribution=stats, anchor_drift=changed, oracle_runs=n_or,
+               directed_f2_witnesses=[list(x) for x in directed_seen])
     return C.finish(ctx, "proof", cov, ["the scorer is an oracle stream; its correctness is C02/C07"])
 
 
